@@ -363,6 +363,23 @@ theorem preexpand_trailing_witness :
     (preExpand [[' ', ' ', '.', '.', '.', ' ', ' ']]).length = 8 ∧ (preExpand [[' ', ' ', '.', '.', '.', ' ', ' ']]).getLast? = some [' ', ' '] := by
   decide
 
+open NemoVerif.TextLayout in
+/-- Source text: uniform scaling of the indentation by any k ≥ 1 — every blank of the run of blanks directly after a line break repeated
+    k times (`scaleText`) — gives the same token stream up to the text of `_`-terminals, errors included.  `ScaleOK` (explicit, about the two
+    tokenizers along the text): at every suffix the tokenizer of the scaled text decides like the tokenizer of the original text, and no body
+    token contains a line break or runs past the end (multi-line strings and `and`/`or` continuation tokens are outside). -/
+theorem text_layout_scale (c : Cfg) (k : Nat) (hk : 1 ≤ k) (o o' : Oracle) (text : TextLayout.Str) (hok : ScaleOK k o o' text) :
+    (seg o' false 0 (scaleText k false text)).bind (layoutE c) = (seg o false 0 text).bind (layoutE c) := by
+  rw [seg_scale k o o' text.length text (Nat.le_refl _) false hok]
+  cases seg o false 0 text with
+  | error e => rfl
+  | ok ps => simp only [Except.map, Except.bind]; exact layout_scale c k hk ps
+
+open NemoVerif.TextLayout in
+/-- non-vacuity: the toy tokenizer satisfies `ScaleOK` on every text; `a⏎·a⏎` scaled by 3 is `a⏎···a⏎`. -/
+example : ScaleOK 3 toyOracle toyOracle "a\n a\n".toList ∧ scaleText 3 false "a\n a\n".toList = "a\n   a\n".toList :=
+  ⟨toyOracle_scaleOK 3 _, by decide⟩
+
 /-! ### … composed with the line-based pre-parsing expansion: statements about the RAW FILE CONTENT
 
   `TextLayout.source c o lines` = `_apply_pre_parsing_expansions` (on `content.split("\n")`) → `"\n".join` → `+ "\n"` (as
@@ -405,7 +422,7 @@ example : unlines (PreExpand.runPre false [['a']]).2 = ['a'] ++ eol false ∧
 open NemoVerif.TextLayout in
 /-- Raw file content: trailing blanks that the lexer ignores, appended to ANY line `l0` (in front of the `\r` of a CRLF file) - the
     `...` statement included: the blanks end up behind the last of the lines it is rewritten to - do not change the token stream.
-    `hX`: `l0` is rewritten to the lines `X0 ++ [xl]` (every line is rewritten to at least one line). -/
+    `hX`: `l0` is rewritten to the lines `X0 ++ [xl]` (such a decomposition always exists: `PreExpand.step_snd_split`). -/
 theorem source_trailing (c : Cfg) (o : Oracle) (hnb : NoBlankStart o) (preL postL : List TextLayout.Str) (l0 : TextLayout.Str)
     (trail : List Ws) (cr : Bool) (ht : ∀ w ∈ trail, c.ign w = true)
     (X0 : List TextLayout.Str) (xl pre post : TextLayout.Str) (P : List Piece)
